@@ -4,6 +4,7 @@ from __future__ import annotations
 import ast
 
 from ..esp import NEW, OLD, SELF, UNDEF, UNKNOWN, run_method, val_str, valuations
+from ..cfg import cfg_of, dominating_edges
 from ..model import Repo, body_nodes, norm
 from .C04 import inactive
 from .common import DUNDER_SEMANTICS, dispatch_ops, expected_cmp, generic_class, op_table, table_stats, trace_str, undecided_class
@@ -25,6 +26,7 @@ def check(repo: Repo, rep, tier):
     reeval_refresh(repo, rep)
     items_total(repo, rep)
     argument_kinds(repo, rep)
+    adapter_dispatch(repo, rep)
     from .C04 import configure
     from .C10 import map_total
 
@@ -36,9 +38,80 @@ def check(repo: Repo, rep, tier):
     from .C14 import reeval_type
 
     reeval_type(repo, rep)
-    from .C04 import xfail
+    from .C18 import node_kind_tested
+
+    node_kind_tested(repo, rep)
+    from .C10 import is_unhashable
+
+    is_unhashable(repo, rep)
+    from .C04 import xfail, ci_detect
 
     xfail(repo, rep)
+    # in a CI run snapshot(x) *is* x: the CI detection decides whether the wrapper exists at all
+    ci_detect(repo, rep)
+
+
+def adapter_dispatch(repo: Repo, rep):
+    rep.rule(
+        "R-ADAPTER-DISPATCH",
+        "get_adapter_type selects a structural adapter (list / tuple / dict) only for values of the builtin type that the adapter's map() builds: the "
+        "`isinstance(value, T)` / `type(value) is T` test that guards `return <Adapter>` names exactly the type `map` constructs (DictAdapter: a dict "
+        "display, SequenceAdapter: `value_type`).  map() is how the stored copy is made - with a wider test (collections.abc.Mapping, Sequence) a value "
+        "of another class is stored as a plain dict / list: `x == snapshot(v)` no longer answers like `x == v`, and the re-evaluation check rejects it",
+    )
+    f = repo.func("_adapter/adapter.py::get_adapter_type")
+    cfg = cfg_of(f)
+    n = 0
+    for r in cfg.stmts(ast.Return):
+        v = r.ast.value
+        if not isinstance(v, ast.Name):
+            continue
+        cls_ = None
+        for c in repo.all_classes():
+            if c.name == v.id and c.module.rel.startswith("_adapter/"):
+                cls_ = c
+        if cls_ is None or v.id == "ValueAdapter":
+            continue
+        # what map() builds
+        product = None
+        mm = repo.lookup_method(cls_, "map")
+        if mm is not None:
+            for x in body_nodes(mm.node):
+                if isinstance(x, ast.Return) and x.value is not None:
+                    if isinstance(x.value, (ast.DictComp, ast.Dict)):
+                        product = "dict"
+                    elif isinstance(x.value, (ast.ListComp, ast.List)):
+                        product = "list"
+                    elif isinstance(x.value, ast.Call) and norm(x.value.func).endswith(".value_type"):
+                        for k in repo.mro(cls_):
+                            for st in k.node.body:
+                                if isinstance(st, ast.Assign) and any(isinstance(t, ast.Name) and t.id == "value_type" for t in st.targets) and isinstance(st.value, ast.Name) and product is None:
+                                    product = st.value.id
+        if product is None:
+            continue
+        n += 1
+        tested = set()
+        for cn, lab in dominating_edges(cfg, r):
+            if cn.kind != "cond" or lab != "T":
+                continue
+            e = cn.ast
+            if isinstance(e, ast.Call) and norm(e.func) == "isinstance" and len(e.args) == 2:
+                t = e.args[1]
+                tested |= {norm(x) for x in (t.elts if isinstance(t, ast.Tuple) else [t])}
+            elif isinstance(e, ast.Compare) and len(e.ops) == 1 and isinstance(e.ops[0], (ast.Is, ast.Eq)) and norm(e.left).startswith("type("):
+                tested.add(norm(e.comparators[0]))
+        if tested == {product}:
+            rep.ok("R-ADAPTER-DISPATCH", f, r.ast, f"{v.id} only for `{product}` values (what its map() builds)")
+        else:
+            rep.violation(
+                "R-ADAPTER-DISPATCH",
+                f,
+                r.ast,
+                f"{v.id} is selected for values of {sorted(tested) or 'any type'}, but its map() stores them as a plain `{product}`: a value of another class loses its type in the stored copy - "
+                f"`x == snapshot(v)` can answer differently from `x == v`, and the second evaluation of the snapshot fails the type check",
+                construct=f"{v.id}:dispatch",
+            )
+    rep.floor("R-ADAPTER-DISPATCH", "structural adapters selected by type", n, 3)
 
 
 def no_flags(v):
